@@ -22,6 +22,9 @@ enum Seg {
     Family,
     Ladder,
     Slow,
+    /// token-level mutations of routines nested 12-40 levels deep (thorough tier only: the known
+    /// finding deep-nesting-invalid-slow costs minutes per hit)
+    DeepMutated,
 }
 
 const EXH_BATCH: u64 = 500;
@@ -42,6 +45,7 @@ fn plan(tier: Tier) -> Vec<(Seg, u64)> {
             v.push((Seg::Random, 30_000));
             v.push((Seg::Mutated, 20_000));
             v.push((Seg::Bytes, 4_000));
+            v.push((Seg::DeepMutated, 24));
         }
     }
     v
@@ -318,6 +322,18 @@ impl Prop for C04 {
                             check_one(&mut out, &s.text[..i], &cfgs[i % cfgs.len()], &[], "truncation-sweep");
                             out.count("gen.truncation-sweep");
                         }
+                    }
+                }
+            }
+            Seg::DeepMutated => {
+                for _ in 0..4 {
+                    let base = common::deep_program(&mut rng);
+                    let input = if rng.chance(1, 4) { base } else { soup::mutate(&mut rng, &base) };
+                    let cfg = if rng.chance(1, 3) { Cfg::sample(&mut rng) } else { cfgs[rng.below(cfgs.len())].clone() };
+                    check_one(&mut out, &input, &cfg, &[], "deep-mutated");
+                    out.count("gen.deep-mutated");
+                    if let Some(h) = nontrivial_key(&input) {
+                        out.nontrivial.push(h);
                     }
                 }
             }
